@@ -56,7 +56,8 @@ def gen_case(rng):
                 grid=rng.choice([(20, 21), (24, 28), (31, 30)]), imp=rng.random() < 0.4, cores=rng.choice([1, 2, 3]),
                 inc=rng.choice([0.4, 0.7]) if presc else 1., pdC=presc and rng.random() < 0.5, uTM=rng.uniform(-0.3, 0.3) if presc else 0.,
                 thetaTdeg=rng.uniform(-0.2, 0.2) if presc else 0., betadeg=rng.uniform(-0.5, 0.5) if presc else 0.,
-                amp=rng.choice([0.05, 0.5, 2.]), m=rng.choice([(2, 2, 2), (3, 2, 2), (2, 1, 3)]), seed=rng.randrange(1 << 30))
+                amp=rng.choice([0.05, 0.5, 2.]), m=rng.choice([(2, 2, 2), (3, 2, 2), (2, 1, 3)]), seed=rng.randrange(1 << 30),
+                imp_mn=rng.choice([(2, 2), (1, 3), (3, 2), (2, 4), (3, 1)]))      # imperfection orders, mostly m0 != n0
 
 
 def build(case, cores=None):
@@ -74,8 +75,10 @@ def build(case, cores=None):
     cc.ni_method = case['method']
     cc.pdC, cc.uTM, cc.thetaTdeg, cc.betadeg = case['pdC'], case['uTM'], case['thetaTdeg'], case['betadeg']
     if case['imp']:
-        cc.c0 = np.array([0.05, 0.02, 0.01, 0.03, -0.02, 0.04, 0.015, -0.01])      # 2*m0*n0 coefficients (funcnum = 2)
-        cc.m0, cc.n0 = 2, 2
+        m0_, n0_ = case.get('imp_mn', (2, 2))
+        base = [0.05, 0.02, 0.01, 0.03, -0.02, 0.04, 0.015, -0.01, 0.025, -0.035, 0.012, 0.022, -0.017, 0.031, 0.009, -0.027]
+        cc.c0 = np.array(base[:2 * m0_ * n0_])      # 2*m0*n0 coefficients (funcnum = 2)
+        cc.m0, cc.n0 = m0_, n0_
     with contextlib.redirect_stdout(QUIET):
         cc._calc_linear_matrices(silent=True)
     return cc
